@@ -1,6 +1,6 @@
 SPECIFICATION Spec
 CONSTANTS
-  Mode = "shape"
+  Mode = "vals"
   MaxD = 3
   NonPerSides = {0, 1, 2, 3}
   PerSides = {2, 3}
@@ -9,7 +9,7 @@ CONSTANTS
   MaxCells = 400
   ValSet = {0, 1, 2, 1000000}
   ExhMax = 4
-  NSamples = 4
+  NSamples = 10
   Primes = {2, 3, 5}
 INVARIANT InvCase
 CHECK_DEADLOCK FALSE
